@@ -117,6 +117,11 @@ def gen_random(rng):
         elif r < 0.72:
             # any other psutil call in between: cache maintenance and table queries
             hist.append(rng.choice([("clear",), ("clear",), ("pids",), ("pidex", p)]))
+        elif r < 0.74:
+            hist.append(("fault", rng.choice(["EMFILE", "ENFILE", "EIO", "ENOMEM"])))
+        elif r < 0.75 and nh:
+            # a signal request the kernel rejects (EINVAL) or a mere probe (signal 0): the process is untouched either way
+            hist.append(("sig", rng.randrange(nh), "send_signal", rng.choice([65, 64 + 36, 1000, 0, 0])))
         elif r < 0.77:
             hist.append(("iter", "keep") if rng.random() < 0.6 else ("iter",))
             nh += sum(1 for q in pids if state[q] != "free")
@@ -153,7 +158,7 @@ def run_history(hist, acc, prime=True):
     with w:
         for op in hist:
             op = tuple(op)
-            if op[0] in ("isrun", "q"):
+            if op[0] in ("isrun", "q", "sig"):
                 hi = op[1]
                 if hi == -1:
                     hi = len(w.handles) - 1
@@ -168,8 +173,21 @@ def run_history(hist, acc, prime=True):
                 continue
             if op[0] == "vanish" and op[1] not in w.t.procs:
                 continue
+            if w.fault_armed and w.fault_armed[0] and op[0] not in ("new", "newp", "isrun", "q", "fault"):
+                w.fault_armed[0] = False        # the transient failure only strikes constructions and queries of an object
             rec = w.apply(op)
             ctx = f"history={[list(o) for o in hist]} at op={list(op)}"
+            faulted = w.fault_fired_tick == rec["tick"]
+            if faulted:
+                acc.count("transient_oserror_injected")
+                # a transient failure of the caller itself (EMFILE, EIO...) may surface as the OSError it is; it must never
+                # turn into an answer, nor leave anything behind
+                if op[0] in ("new", "newp") and rec["res"][0] == "ok":
+                    viols.append(("construction_swallowed_transient_oserror", ctx))
+                if op[0] == "isrun" and rec["res"][0] == "ok" and rec["res"][1] != rec["model"]:
+                    viols.append(("is_running_answered_wrong_under_transient_oserror", ctx + f" res={rec['res']}"))
+                if op[0] in ("isrun", "q") and rec["res"][0].startswith("exc:OSError"):
+                    continue
             if op[0] == "step":
                 step_ticks.append(w.tick)
             if op[0] == "spawn":
@@ -207,7 +225,9 @@ def run_history(hist, acc, prime=True):
                         viols.append((mech, ctx + f" pair=({i},{j}) pids=({a.pid},{b.pid}) incs=({a.inc},{b.inc})"))
                     elif want and not heq:
                         viols.append(("equal_objects_hash_differently", ctx + f" pair=({i},{j})"))
-        # final sweep: is_running of every object
+        # final sweep: is_running of every object (any transient failure is over by now)
+        if w.fault_armed:
+            w.fault_armed[0] = False
         for i, h in enumerate(w.handles):
             rec = w.apply(("isrun", i))
             acc.count("is_running_checked")
@@ -236,6 +256,13 @@ def fresh_histories():
                 [("new", PID), ("step", 86400), ("iter", "keep"), ("isrun", 0)],
                 [("new", PID), ("q", 0, "create_time"), ("step", 1), ("new", PID), ("q", 1, "create_time")],
                 [("new", PID), ("step", 3600), ("clear",), ("isrun", 0), ("new", PID)],
+                [("new", PID), ("sig", 0, "send_signal", 65), ("isrun", 0), ("new", PID)],
+                [("new", PID), ("fault", "EMFILE"), ("isrun", 0), ("isrun", 0), ("new", PID)],
+                [("fault", "EMFILE"), ("new", PID), ("new", PID), ("isrun", 0)],
+                [("new", PID), ("fault", "EIO"), ("new", PID), ("new", PID), ("isrun", -1)],
+                [("iter", "keep"), ("fault", "ENFILE"), ("isrun", 0), ("iter", "keep"), ("isrun", 0)],
+                [("new", PID), ("sig", 0, "send_signal", 1000), ("isrun", 0), ("sig", 0, "send_signal", 0), ("isrun", 0), ("new", PID)],
+                [("iter", "keep"), ("sig", 0, "send_signal", 65), ("iter", "keep"), ("isrun", 0)],
                 [("iter", "keep"), ("step", -86400), ("clear",), ("iter", "keep"), ("isrun", 0)],
                 [("step", 5), ("step", -5), ("new", PID), ("boot",), ("step", 9), ("boot",), ("new", PID)]):
         out.append(pre + mid + [("cmp",)])
